@@ -13,6 +13,13 @@ import (
 type VFuncTable struct {
 	Keys []string // function keys by index
 }
+
+// VFuncChoice is a function value looked up in a package-level map of functions.
+type VFuncChoice struct {
+	Conds []Term
+	Keys  []string
+}
+
 type VFuncPick struct {
 	Tab VFuncTable
 	Idx Term
@@ -52,12 +59,30 @@ func (e *Ev) evCall(x *ast.CallExpr) Val {
 		if fn.Pkg() != nil && fn.Pkg().Path() == "fmt" {
 			return e.evFmt(x, fn.Name())
 		}
-		return e.callFunc(x, fn, nil, false)
+		if fn.Pkg() != nil && fn.Pkg().Path() == "unicode" && fn.Name() == "Is" {
+			tab, ok := e.ev(x.Args[0]).(VRangeTable)
+			if !ok {
+				e.unsupp(x, "unicode.Is on a table that is not a package-level range table")
+			}
+			r := e.intOf(e.ev(x.Args[1]), x.Args[1])
+			var ds []Term
+			for _, rg := range tab.Ranges {
+				ds = append(ds, sAnd(sLe(fmt.Sprintf("%d", rg[0]), r), sLe(r, fmt.Sprintf("%d", rg[1]))))
+			}
+			e.fx.trusted["unicode.Is(tab, r) <=> r lies in one of the ranges of tab; rangetable.Merge is the union of its arguments (assumed; the merged table is re-validated against the real package in the replay harness)"] = true
+			return VBool{e.fx.name(sortBool, "intab", sOr(ds...))}
+		}
+		r := e.callFunc(x, fn, nil, false)
+		e.anyOfFact(x, fn, r)
+		return r
 	}
 	// indirect call through the transition table
 	fv := e.ev(x.Fun)
 	if p, ok := fv.(VFuncPick); ok {
 		return e.callPick(x, p)
+	}
+	if ch, ok := fv.(VFuncChoice); ok {
+		return e.callChoice(x, ch)
 	}
 	e.unsupp(x, "unsupported call %s", exprString(x.Fun))
 	return nil
@@ -147,6 +172,8 @@ func (e *Ev) evBuiltin(x *ast.CallExpr, name string) Val {
 			return VInt{e.fx.heapMapLen(a)}
 		case VMapLit:
 			return VInt{fmt.Sprintf("%d", len(a.Entries))}
+		case VArrLit:
+			return VInt{fmt.Sprintf("%d", a.Len)}
 		}
 		e.unsupp(x, "len of %T", v)
 	case "panic":
@@ -666,6 +693,64 @@ func (e *Ev) callPick(x *ast.CallExpr, p VFuncPick) Val {
 	acc := outs[len(outs)-1]
 	for i := len(outs) - 2; i >= 0; i-- {
 		acc = e.fx.iteVal(conds[i], outs[i], acc)
+	}
+	return acc
+}
+
+// anyOfFact adds the language reading of strings.ContainsAny(s, "chars") for a literal ASCII set:
+// the result is membership of s in the language (?s)[chars] (second assumed characterisation of the
+// same function; lets P2 lemmas talk about it).
+func (e *Ev) anyOfFact(x *ast.CallExpr, fn *types.Func, r Val) {
+	if fn.Pkg() == nil || fn.Pkg().Path() != "strings" || fn.Name() != "ContainsAny" || len(x.Args) != 2 {
+		return
+	}
+	tv := e.info.Types[x.Args[1]]
+	if tv.Value == nil || tv.Value.Kind() != constant.String {
+		return
+	}
+	chars := constant.StringVal(tv.Value)
+	name := "anyof"
+	var cls strings.Builder
+	for i := 0; i < len(chars); i++ {
+		if chars[i] >= 0x80 {
+			return
+		}
+		name += fmt.Sprintf("_%02x", chars[i])
+		cls.WriteString(fmt.Sprintf("\\x%02x", chars[i]))
+	}
+	pat := "(?s)[" + cls.String() + "]"
+	e.fx.prog.registerSpecRegex(name, pat)
+	s, ok := e.ev(x.Args[0]).(VStr)
+	rb, ok2 := r.(VBool)
+	if !ok || !ok2 {
+		return
+	}
+	e.fx.langsUsed[name] = true
+	e.fx.useSeq = true
+	e.fx.assume(e.st.pc, sEq(rb.T, "(inlang_"+name+" "+e.fx.seqOf(s)+")"))
+	e.fx.trusted["strings.ContainsAny(s, ASCII literal) <=> s contains a rune of the set (language reading, assumed)"] = true
+}
+
+// callChoice calls a function value obtained from a table of functions: one contract per entry.
+func (e *Ev) callChoice(x *ast.CallExpr, ch VFuncChoice) Val {
+	var args []Val
+	for _, a := range x.Args {
+		args = append(args, e.ev(a))
+	}
+	e.safety("nilfunc", "nilfunc", x.Pos(), sOr(ch.Conds...), "called function value is not nil")
+	var outs []Val
+	for i, key := range ch.Keys {
+		con := e.fx.prog.spec.Contracts[key]
+		fn := e.fx.prog.funcByKey[key]
+		if con == nil || fn == nil {
+			e.unsupp(x, "table entry %s has no contract", key)
+		}
+		sub := e.withPC(e.fx.name(sortBool, "pc", sAnd(e.st.pc, ch.Conds[i])))
+		outs = append(outs, sub.applyContract(x, con, fn, nil, args))
+	}
+	acc := outs[len(outs)-1]
+	for i := len(outs) - 2; i >= 0; i-- {
+		acc = e.fx.iteVal(ch.Conds[i], outs[i], acc)
 	}
 	return acc
 }
